@@ -400,12 +400,12 @@ theorem secfld_least_prime (o : Oracles) (ho : OracleOK o) (a : Args)
 example : resolve ⟨irrBrute, findIrrBrute, fun b x => .ok (clog b x)⟩ ⟨none, .none, none, some 2, some 100⟩
     = .ok (⟨11, 2, 121, some [1, 0, 1]⟩, 121, 100) := by decide +kernel
 
-/-- `min_order` with given characteristic: the exponent is the value of the float ceil-log; when that
-equals the exact `clog` (and min_order ≥ 2) it is the least exponent -/
+/-- ★ `min_order` with given characteristic: the extension degree is the LEAST exponent e with c^e ≥ min_order (exact: since
+the repo fix the code computes it with integers; the hypothesis "the floating-point ceil-log is exact" that this theorem
+needed before is gone, and with it the defect SecFld(char=2, min_order=2^64+1) -> AssertionError) -/
 theorem secfld_least_exponent (o : Oracles) (ho : OracleOK o) (a : Args)
     (hm : a.modulus = .none) (hord : a.order = none) (c n : Nat) (hc : a.char = some c)
     (he : a.extDeg = none) (hn : a.minOrder = some n) (hn2 : 2 ≤ n) (hc2 : 2 ≤ c)
-    (hexact : o.ceilLog c n = .ok (clog c n))
     (F : Field) (order minOrder : Nat) (h : resolve o a = .ok (F, order, minOrder)) :
     F.char = c ∧ F.extDeg = clog c n ∧ n ≤ c ^ F.extDeg ∧ ∀ e, n ≤ c ^ e → F.extDeg ≤ e := by
   have hwf : ArgsWF a := fun p f hp => by rw [hm] at hp; exact Modulus.noConfusion hp
@@ -442,8 +442,7 @@ theorem secfld_least_exponent (o : Oracles) (ho : OracleOK o) (a : Args)
   simp only at hra
   obtain ⟨hmod, _, _, _, _, _, hfl⟩ := stepNone_ok hra
   obtain ⟨hcle, hrc⟩ := hfl n c hn rfl rfl
-  rw [hexact] at hcle
-  simp only [Except.ok.injEq] at hcle
+  have hcle := hcle.symm
   have hdeg : F'.extDeg = r.extDeg := by
     rcases hmod with ⟨he1, hmd⟩ | ⟨hne1, hpr, hmd⟩
     · rw [hmd] at hF
